@@ -140,7 +140,7 @@ func init() {
 		Assumptions: []string{"user functions of the standard set do not modify their arguments", "race reports are those the Go race detector produces on the interleavings that occurred"},
 		Plan: func(tier string, seed int64) *harness.Plan {
 			sys := newSysCases("quick")
-			nRand := size(tier, 150000, 2000000)
+			nRand := size(tier, 150000, 8000000)
 			nRace := size(tier, 48, 400)
 			var src *strSource
 			return &harness.Plan{
